@@ -43,6 +43,7 @@ class PeerConn:
         self.done = False
         self.dead = False               # a fault ended the script
         self.msg_idx = 0
+        self.delivered = bytearray()
         self.log = {'ordinal': ordinal, 'global': end.conn.ordinal, 'opened': self.k.now, 'tx': [], 'rx': [],
                     'frames': [], 'closed_by_peer_at': None, 'eof_seen': False, 'stage': 'open', 'script_error': None}
         end.rx.on_arrival = self.pump
@@ -173,6 +174,8 @@ class PeerConn:
         self.msg_idx += 1
         faults = self.owner.faults_for(self.ordinal, tag, idx)
         rec = {'tag': tag, 'idx': idx, 'len': len(data), 'faults': []}
+        if w.plan.get('keep_tx_msgs'):
+            rec['hex'] = bytes(data).hex()
         self.log['tx'].append(rec)
         delay = 0
         pre = b''
@@ -211,6 +214,8 @@ class PeerConn:
         rec['sent'] = len(pre) + len(data)
         rec['intact'] = not [x for x in rec['faults'] if x != 'delay']
         out = pre + data
+        if w.plan.get('keep_tx') and len(self.delivered) < 262144:
+            self.delivered += out
         if out:
             atomic = tag in ('pre', 'banner', 'text')
             w.transmit(self.end, out, w.segment(out, atomic_lines=atomic), extra_delay=delay)
@@ -531,6 +536,8 @@ class SimSSHServer:
         out['conns'] = [pc.log for pc in self.conns]
         for pc in self.conns:
             pc.log['done'] = pc.done
+            if self.w.plan.get('keep_tx'):
+                pc.log['delivered_hex'] = bytes(pc.delivered).hex()
             pc.log['rx_left'] = len(pc.buf)
             pc.log['tool_closed'] = bool(pc.end.rx.fin or pc.end.rx.rst)
         return out
@@ -610,5 +617,7 @@ class SimSSHClient:
         out['conns'] = [pc.log for pc in self.conns]
         for pc in self.conns:
             pc.log['done'] = pc.done
+            if self.w.plan.get('keep_tx'):
+                pc.log['delivered_hex'] = bytes(pc.delivered).hex()
             pc.log['tool_closed'] = bool(pc.end.rx.fin or pc.end.rx.rst)
         return out
